@@ -100,7 +100,7 @@ abbrev collOpChoice : PExpr := .choice [.ruleRef "CollectionOpAny", .ruleRef "Co
 
 /-- `any ` / `all ` -/
 theorem eats_collOp (op : CollOp) {w : GoString} (hw : Blank1 w)
-    (hstop : headIn isWs rest = false) (hr : Asc rest) :
+    (hstop : headIn isWs rest = false) (hr : VT rest) :
     Eats rule collOpChoice fr (opText op ++ w) rest off errs fr (.cop op) := by
   obtain ⟨hne, hws⟩ := hw
   cases w with
@@ -110,17 +110,17 @@ theorem eats_collOp (op : CollOp) {w : GoString} (hw : Blank1 w)
     cases op with
     | any =>
       refine Eats.choice_hit (Eats.ref look_CollectionOpAny (by decide) (Eats.action (Eats.seq
-        (EatsSeq.cons (Eats.lit kAny rfl (by decide) (hwa.append hr))
+        (EatsSeq.cons (Eats.lit kAny rfl (by decide) (hwa.appendV hr))
           (EatsSeq.one (eats_ws hws hstop hr)))) ?_))
       rw [act_of_sem sem_onCollectionOpAny1]; rfl
     | all =>
       have f1 : Fails rule (.ruleRef "CollectionOpAny") [] ((kAll ++ (b :: t)) ++ rest) off errs :=
         Fails.ref look_CollectionOpAny (by decide) (Fails.action (Fails.seq (FailsSeq.here
           (Fails.lit kAny rfl (by decide)
-            ((Asc.append (by decide) hwa).append hr) rfl))))
+            ((Asc.append (by decide) hwa).appendV hr) rfl))))
       refine Eats.choice_next f1 (Eats.choice_hit (Eats.ref look_CollectionOpAll (by decide)
         (Eats.action (Eats.seq
-          (EatsSeq.cons (Eats.lit kAll rfl (by decide) (hwa.append hr))
+          (EatsSeq.cons (Eats.lit kAll rfl (by decide) (hwa.appendV hr))
             (EatsSeq.one (eats_ws hws hstop hr)))) ?_)))
       rw [act_of_sem sem_onCollectionOpAll1]; rfl
 
@@ -134,7 +134,7 @@ def Ident.WF (i : Ident) : Prop := isAlpha i.b.toNat = true ∧ AllIn isIdc i.x
 theorem Ident.text_asc (i : Ident) (h : i.WF) : Asc i.text :=
   Asc.cons (isAlpha_lt h.1) (h.2.asc @isIdc_lt)
 
-theorem eats_Ident (i : Ident) (h : i.WF) (hstop : headIn isIdc rest = false) (hr : Asc rest) :
+theorem eats_Ident (i : Ident) (h : i.WF) (hstop : headIn isIdc rest = false) (hr : VT rest) :
     Eats rule (.ruleRef "Identifier") fr i.text rest off errs fr (.str i.text) :=
   eats_Identifier h.1 h.2 hstop hr
 
@@ -221,11 +221,11 @@ theorem look_CI_expr : Pinned.Grammar.rule_5.expr = .choice [
 
 /-- `CollectionIdentifiers` on a spelled binding, followed by optional blanks and `{` -/
 theorem eats_CollectionIdentifiers (b : BindSp) (h : b.WF) {w r : GoString} (hw : Blank w)
-    (hr : Asc r) :
+    (hr : VT r) :
     Eats rule (.ruleRef "CollectionIdentifiers") fr b.text (w ++ ([123] ++ r)) off errs fr
       (.binding b.binding) := by
   have hwa : Asc w := hw.asc @isWs_lt
-  have hrest : Asc (w ++ ([123] ++ r)) := hwa.append (Asc.cons (by decide) hr)
+  have hrest : VT (w ++ ([123] ++ r)) := hwa.appendV (VT.cons (by decide) hr)
   have hidc : headIn isIdc (w ++ ([123] ++ r)) = false := noIdc_blank hw rfl
   apply Eats.ref look_CollectionIdentifiers (by decide)
   rw [look_CI_expr]
@@ -240,14 +240,14 @@ theorem eats_CollectionIdentifiers (b : BindSp) (h : b.WF) {w r : GoString} (hw 
       (eats_Ident (off := off) (errs := errs) i hi
         (rest := (w₁ ++ ([44] ++ (w₂ ++ v.text))) ++ (w ++ ([123] ++ r)))
         (by rw [List.append_assoc]; exact noIdc_blank h1 rfl)
-        ((h1a.append (Asc.cons (by decide) (h2a.append hva))).append hrest))
+        ((h1a.append (Asc.cons (by decide) (h2a.append hva))).appendV hrest))
     obtain ⟨v2, e2⟩ := eats_optWs (rule := R) (fr := [("id1", .str i.text)])
       (off := off + i.text.length) (errs := errs) h1
       (rest := ([44] ++ (w₂ ++ v.text)) ++ (w ++ ([123] ++ r))) rfl
-      ((Asc.cons (by decide) (h2a.append hva)).append hrest)
+      ((Asc.cons (by decide) (h2a.append hva)).appendV hrest)
     have e3 : Eats R (.lit [44] false) [("id1", .str i.text)] [44]
         ((w₂ ++ v.text) ++ (w ++ ([123] ++ r))) (off + i.text.length + w₁.length) errs _ _ :=
-      Eats.lit [44] rfl (by decide) ((h2a.append hva).append hrest)
+      Eats.lit [44] rfl (by decide) ((h2a.append hva).appendV hrest)
     obtain ⟨v4, e4⟩ := eats_optWs (rule := R) (fr := [("id1", .str i.text)])
       (off := off + i.text.length + w₁.length + ([44] : GoString).length) (errs := errs) h2
       (rest := v.text ++ (w ++ ([123] ++ r)))
@@ -256,7 +256,7 @@ theorem eats_CollectionIdentifiers (b : BindSp) (h : b.WF) {w r : GoString} (hw 
           show tokStart v.b.toNat = true
           simp [tokStart, hv.1]
         exact noWs_of_tokStart this)
-      (hva.append hrest)
+      (hva.appendV hrest)
     have e5 := Eats.labeled (rule := R) (l := "id2") (fr := [("id1", .str i.text)]) (by decide)
       (eats_Ident (off := off + i.text.length + w₁.length + ([44] : GoString).length + w₂.length)
         (errs := errs) v hv hidc hrest)
@@ -269,20 +269,20 @@ theorem eats_CollectionIdentifiers (b : BindSp) (h : b.WF) {w r : GoString} (hw 
     obtain ⟨hi, h1, h2⟩ := h
     have h2a : Asc w₂ := h2.asc @isWs_lt
     have h1a : Asc w₁ := h1.asc @isWs_lt
-    have hu : Asc ([95] ++ (w ++ ([123] ++ r))) := Asc.cons (by decide) hrest
+    have hu : VT ([95] ++ (w ++ ([123] ++ r))) := VT.cons (by decide) hrest
     have e1 := Eats.labeled (rule := R) (l := "id1") (fr := []) (by decide)
       (eats_Ident (off := off) (errs := errs) i hi
         (rest := (w₁ ++ ([44] ++ (w₂ ++ [95]))) ++ (w ++ ([123] ++ r)))
         (by rw [List.append_assoc]; exact noIdc_blank h1 rfl)
-        ((h1a.append (Asc.cons (by decide) (h2a.append (Asc.cons (by decide) Asc.nil)))).append
+        ((h1a.append (Asc.cons (by decide) (h2a.append (Asc.cons (by decide) Asc.nil)))).appendV
           hrest))
     obtain ⟨v2, e2⟩ := eats_optWs (rule := R) (fr := [("id1", .str i.text)])
       (off := off + i.text.length) (errs := errs) h1
       (rest := ([44] ++ (w₂ ++ [95])) ++ (w ++ ([123] ++ r))) rfl
-      ((Asc.cons (by decide) (h2a.append (Asc.cons (by decide) Asc.nil))).append hrest)
+      ((Asc.cons (by decide) (h2a.append (Asc.cons (by decide) Asc.nil))).appendV hrest)
     have e3 : Eats R (.lit [44] false) [("id1", .str i.text)] [44]
         ((w₂ ++ [95]) ++ (w ++ ([123] ++ r))) (off + i.text.length + w₁.length) errs _ _ :=
-      Eats.lit [44] rfl (by decide) ((h2a.append (Asc.cons (by decide) Asc.nil)).append hrest)
+      Eats.lit [44] rfl (by decide) ((h2a.append (Asc.cons (by decide) Asc.nil)).appendV hrest)
     obtain ⟨v4, e4⟩ := eats_optWs (rule := R) (fr := [("id1", .str i.text)])
       (off := off + i.text.length + w₁.length + ([44] : GoString).length) (errs := errs) h2
       (rest := [95] ++ (w ++ ([123] ++ r))) rfl hu
@@ -308,8 +308,8 @@ theorem eats_CollectionIdentifiers (b : BindSp) (h : b.WF) {w r : GoString} (hw 
     have hva := v.text_asc hv
     have h2a : Asc w₂ := h2.asc @isWs_lt
     have h1a : Asc w₁ := h1.asc @isWs_lt
-    have hall : Asc ((BindSp.value w₁ w₂ v).text ++ (w ++ ([123] ++ r))) :=
-      (Asc.cons (by decide) (h1a.append (Asc.cons (by decide) (h2a.append hva)))).append hrest
+    have hall : VT ((BindSp.value w₁ w₂ v).text ++ (w ++ ([123] ++ r))) :=
+      (Asc.cons (by decide) (h1a.append (Asc.cons (by decide) (h2a.append hva)))).appendV hrest
     -- alternatives 1 and 2 fail at `id1`: `_` is no identifier
     have f1 : ∀ nm tl, Fails R (.action nm (.seq (.labeled "id1" (.ruleRef "Identifier") :: tl)))
         [] ((BindSp.value w₁ w₂ v).text ++ (w ++ ([123] ++ r))) off errs := fun nm tl =>
@@ -317,14 +317,14 @@ theorem eats_CollectionIdentifiers (b : BindSp) (h : b.WF) {w r : GoString} (hw 
     have e1 : Eats R (.lit [95] false) [] [95]
         ((w₁ ++ ([44] ++ (w₂ ++ v.text))) ++ (w ++ ([123] ++ r))) off errs _ _ :=
       Eats.lit [95] rfl (by decide)
-        ((h1a.append (Asc.cons (by decide) (h2a.append hva))).append hrest)
+        ((h1a.append (Asc.cons (by decide) (h2a.append hva))).appendV hrest)
     obtain ⟨v2, e2⟩ := eats_optWs (rule := R) (fr := [])
       (off := off + ([95] : GoString).length) (errs := errs) h1
       (rest := ([44] ++ (w₂ ++ v.text)) ++ (w ++ ([123] ++ r))) rfl
-      ((Asc.cons (by decide) (h2a.append hva)).append hrest)
+      ((Asc.cons (by decide) (h2a.append hva)).appendV hrest)
     have e3 : Eats R (.lit [44] false) [] [44]
         ((w₂ ++ v.text) ++ (w ++ ([123] ++ r))) (off + ([95] : GoString).length + w₁.length) errs
-        _ _ := Eats.lit [44] rfl (by decide) ((h2a.append hva).append hrest)
+        _ _ := Eats.lit [44] rfl (by decide) ((h2a.append hva).appendV hrest)
     obtain ⟨v4, e4⟩ := eats_optWs (rule := R) (fr := [])
       (off := off + ([95] : GoString).length + w₁.length + ([44] : GoString).length)
       (errs := errs) h2 (rest := v.text ++ (w ++ ([123] ++ r)))
@@ -333,7 +333,7 @@ theorem eats_CollectionIdentifiers (b : BindSp) (h : b.WF) {w r : GoString} (hw 
           show tokStart v.b.toNat = true
           simp [tokStart, hv.1]
         exact noWs_of_tokStart this)
-      (hva.append hrest)
+      (hva.appendV hrest)
     have e5 := Eats.labeled (rule := R) (l := "id2") (fr := []) (by decide)
       (eats_Ident (off := off + ([95] : GoString).length + w₁.length + ([44] : GoString).length +
         w₂.length) (errs := errs) v hv hidc hrest)
@@ -345,7 +345,7 @@ theorem eats_CollectionIdentifiers (b : BindSp) (h : b.WF) {w r : GoString} (hw 
     simp [runActionSem, Frame.get, List.find?, BindSp.binding]
   | dflt d =>
     have hda := d.text_asc h
-    have hall : Asc (d.text ++ (w ++ ([123] ++ r))) := hda.append hrest
+    have hall : VT (d.text ++ (w ++ ([123] ++ r))) := hda.appendV hrest
     -- alternatives 1 and 2: the identifier, the blanks, then no `,`
     have f12 : ∀ nm tl, Fails R (.action nm (.seq (.labeled "id1" (.ruleRef "Identifier") ::
         .zeroOrOne (.ruleRef "_") :: .lit [44] false :: tl))) []
@@ -353,11 +353,11 @@ theorem eats_CollectionIdentifiers (b : BindSp) (h : b.WF) {w r : GoString} (hw 
       intro nm tl
       obtain ⟨v2, e2⟩ := eats_optWs (rule := R) (fr := [("id1", .str d.text)])
         (off := off + d.text.length) (errs := errs) hw (rest := [123] ++ r) rfl
-        (Asc.cons (by decide) hr)
+        (VT.cons (by decide) hr)
       exact Fails.action (Fails.seq (FailsSeq.later
         (Eats.labeled (l := "id1") (by decide) (eats_Ident d h hidc hrest))
         (FailsSeq.later e2 (FailsSeq.here
-          (Fails.lit [44] rfl (by decide) (Asc.cons (by decide) hr) rfl)))))
+          (Fails.lit [44] rfl (by decide) (VT.cons (by decide) hr) rfl)))))
     -- alternative 3: no `_`
     have f3 : Fails R (.action "onCollectionIdentifiers23" (.seq [.lit [95] false,
         .zeroOrOne (.ruleRef "_"), .lit [44] false, .zeroOrOne (.ruleRef "_"),
@@ -475,7 +475,7 @@ theorem KwFree.mem {r : GoString} (h : KwFree r) {K : GoString} (hK : K ∈ kwLi
 
 /-- none of the operator rules matches on blanks followed by a `KwFree` text -/
 theorem fails_allOps {w₁ r : GoString} (hw : AllIn isWs w₁) (hstop : headIn isWs r = false)
-    (h : KwFree r) (hs : Asc (w₁ ++ r)) :
+    (h : KwFree r) (hs : VT (w₁ ++ r)) :
     (∀ (rule : String) (fr : Frame) (off : Nat) (errs : List PErr),
       Fails rule op6 fr (w₁ ++ r) off errs) ∧
     (∀ (rule : String) (fr : Frame) (off : Nat) (errs : List PErr),
@@ -517,15 +517,15 @@ theorem fails_allOps {w₁ r : GoString} (hw : AllIn isWs w₁) (hstop : headIn 
     operator is not a match expression, hence no `NotExpression` and no `AndExpression`:
     `OrExpression` falls through to its quantifier alternative. -/
 theorem fails_AndExpression_kw (σ₀ : SelSp) (h0 : σ₀.WF) {w₁ r : GoString} (hw : Blank1 w₁)
-    (hstop : headIn isWs r = false) (hfree : KwFree r) (hr : Asc r)
+    (hstop : headIn isWs r = false) (hfree : KwFree r) (hr : VT r)
     (hnot : GoString.isPrefixOf kNot (σ₀.text ++ (w₁ ++ r)) = false)
     (hpar : GoString.isPrefixOf [40] (σ₀.text ++ (w₁ ++ r)) = false)
     (rule : String) (fr : Frame) (off : Nat) (errs : List PErr) :
     Fails rule (.ruleRef "AndExpression") fr (σ₀.text ++ (w₁ ++ r)) off errs := by
   obtain ⟨hne, hws⟩ := hw
   have hwa : Asc w₁ := hws.asc @isWs_lt
-  have htail : Asc (w₁ ++ r) := hwa.append hr
-  have hall : Asc (σ₀.text ++ (w₁ ++ r)) := (σ₀.text_asc h0).append htail
+  have htail : VT (w₁ ++ r) := hwa.appendV hr
+  have hall : VT (σ₀.text ++ (w₁ ++ r)) := (σ₀.text_vt h0).append htail
   have hsel : stopsSel (w₁ ++ r) := by
     cases w₁ with
     | nil => exact absurd rfl hne
